@@ -315,7 +315,7 @@ def plan(tier, seed):
     for sch in ('t', 'd', 'f'):
         unary(2, 2, 1, sch)
         unary(3, 1, 1, sch)
-    unary(4, 2, 32, 's', stride=64 if tier == 'quick' else 4)
+    unary(4, 2, 64, 's', stride=16 if tier == 'quick' else 1)
     total(1, 1, 1), total(1, 2, 1), total(2, 1, 1), total(2, 2, 2)
     for s in range(8):
         tasks.append(('plain', P + 'check_helpers', {'shard': s, 'nshard': 8}))
@@ -331,7 +331,7 @@ def plan(tier, seed):
         unary(3, 2, 8, 'q')
         total(3, 1, 4)
         bounds = 'pairs DFA(n<=2,k<=2)^2, DFA(n<=3,1)^2 all; DFA(3,2)xDFA(2,2) both orders stride 1/4; unary DFA(n<=3,k<=2), DFA(4,1); partial DFAs n<=2, (3,1); helpers on all 128 finite languages (pairs: 16 384)'
-    tasks = tasks + common.ordered_copies(tasks, lambda name, p: name.endswith('t_unary') and (p['n'], p['k']) in ((3, 1), (2, 2), (4, 2)) and p['scheme'] == 's' and p['shard'] % 4 == 0)
+    tasks = tasks + common.ordered_copies(tasks, lambda name, p: name.endswith('t_unary') and (p['n'], p['k']) in ((3, 1), (2, 2), (4, 2)) and p['scheme'] == 's' and p['shard'] % 2 == 0)
     return {'tasks': tasks, 'bounds': {'spaces': bounds}, 'exhaustive': True,
             'rule': 'every pair / every DFA in the bounds x each construction, exact equivalence with an oracle-built reference construction; helpers on every finite language over {a,b}^<=2; non-trivial = operands with different languages / unreachable or mixed accepting states / at least one removed transition',
             'assumptions': ['partial DFAs are built with check_validity=False and read as: missing transition = no run']}
